@@ -2,7 +2,10 @@
 (***************************************************************************)
 (* Trace validation for C09 (monitor).  Events recorded from a real daemon *)
 (* serving classes S (single), N (session), P (percall):                   *)
-(*   cfg(creator)        none | ok | failfirst | wrongtype                 *)
+(*   cfg(creator, race)  none | ok | failfirst | wrongtype; race: the      *)
+(*                       calls of several connections overlapped (the log  *)
+(*                       has them in the order they returned, which need   *)
+(*                       not be the order in which the creator was called) *)
 (*   open(c) / close(c, alive)  c numbers connection incarnations; alive = *)
 (*                       its session instances still alive after the close *)
 (*   call(c, k, inst, ok) inst = serial number the serving instance got in *)
@@ -17,25 +20,29 @@ NT == Len(Traces)
 Classes == {"S", "N", "P"}
 ModeOf(k) == IF k = "S" THEN "single" ELSE IF k = "N" THEN "session" ELSE "percall"
 ConnIds == 1..12
-VARIABLES t, l, single, sess, used, attempts, distinct, bad
-vars == <<t, l, single, sess, used, attempts, distinct, bad>>
+VARIABLES t, l, single, sess, used, attempts, distinct, fails, bad
+vars == <<t, l, single, sess, used, attempts, distinct, fails, bad>>
 Tr == Traces[t]
 Creator == Tr[1].creator
+Race == "race" \in DOMAIN Tr[1] /\ Tr[1].race
 Flag(c) == IF bad = "" THEN c ELSE bad
 
 Init == /\ t \in 1..NT /\ l = 2 /\ single = [k \in Classes |-> 0]
         /\ sess = [c \in ConnIds |-> [k \in Classes |-> 0]]
-        /\ used = {} /\ attempts = [k \in Classes |-> 0] /\ distinct = [k \in Classes |-> 0] /\ bad = ""
+        /\ used = {} /\ attempts = [k \in Classes |-> 0] /\ distinct = [k \in Classes |-> 0] /\ fails = [k \in Classes |-> 0] /\ bad = ""
 
 NeedsCreate(c, k) == CASE ModeOf(k) = "single" -> single[k] = 0
                        [] ModeOf(k) = "session" -> sess[c][k] = 0
                        [] OTHER -> TRUE
 \* must this call fail because the creator fails?
 MustFail(c, k) == NeedsCreate(c, k) /\ (Creator = "wrongtype" \/ (Creator = "failfirst" /\ attempts[k] = 0))
+\* overlapping calls and a creator that fails its first invocation: that invocation belongs to exactly one of the calls, which
+\* one cannot be told from the order of the returns - one failing call per class is in order (the count is checked at the end)
+RaceFail(e) == Race /\ Creator = "failfirst" /\ ~e.ok /\ fails[e.k] = 0
 
-CallStep(e) ==
+PlainCall(e) ==
     LET c == e.c  k == e.k IN
-    IF MustFail(c, k)
+    IF MustFail(c, k) /\ ~(Race /\ Creator = "failfirst")
     THEN /\ attempts' = [attempts EXCEPT ![k] = @ + 1]
          /\ bad' = IF e.ok THEN Flag("C09.CreatorFailureSwallowed") ELSE bad
          /\ UNCHANGED <<single, sess, used, distinct>>
@@ -60,9 +67,17 @@ CallStep(e) ==
                            /\ bad' = IF e.inst \in used THEN Flag("C09.PerCall.Reused") ELSE bad
                            /\ UNCHANGED <<single, sess>>
 
+CallStep(e) ==
+    IF RaceFail(e)
+    THEN /\ fails' = [fails EXCEPT ![e.k] = @ + 1]
+         /\ UNCHANGED <<single, sess, used, distinct, attempts, bad>>
+    ELSE UNCHANGED fails /\ PlainCall(e)
+
 StatsStep(e) ==
-    /\ UNCHANGED <<single, sess, used, attempts, distinct>>
+    /\ UNCHANGED <<single, sess, used, attempts, distinct, fails>>
     /\ bad' = IF \E k \in Classes : e.creates[k] # distinct[k] THEN Flag("C09.ConstructionsNotExact")
+              ELSE IF Race /\ Creator = "failfirst" /\ \E k \in Classes : fails[k] # (IF e.creator_calls[k] > 0 THEN 1 ELSE 0)
+                   THEN Flag("C09.CreatorFailureSwallowed")
               ELSE IF Creator \in {"ok", "failfirst"} /\ \E k \in Classes : e.creator_ok[k] # distinct[k]
                    THEN Flag("C09.CreatorCallsNotExact")
               ELSE IF e.alive_session # 0 THEN Flag("C09.SessionNotDropped")
@@ -70,16 +85,16 @@ StatsStep(e) ==
 
 Step == /\ l <= Len(Tr) /\ l' = l + 1 /\ t' = t
         /\ LET e == Tr[l] IN
-           CASE e.e = "open"  -> UNCHANGED <<single, sess, used, attempts, distinct, bad>>
+           CASE e.e = "open"  -> UNCHANGED <<single, sess, used, attempts, distinct, fails, bad>>
              [] e.e = "close" -> /\ sess' = [sess EXCEPT ![e.c] = [k \in Classes |-> 0]]
                                  /\ bad' = IF e.alive # 0 THEN Flag("C09.SessionNotDropped") ELSE bad
-                                 /\ UNCHANGED <<single, used, attempts, distinct>>
+                                 /\ UNCHANGED <<single, used, attempts, distinct, fails>>
              \* a second daemon in the same process registers the same classes: it has no 'single' instance yet
              [] e.e = "newdaemon" -> /\ single' = [k \in Classes |-> 0]
-                                     /\ UNCHANGED <<sess, used, attempts, distinct, bad>>
+                                     /\ UNCHANGED <<sess, used, attempts, distinct, fails, bad>>
              [] e.e = "call"  -> CallStep(e)
              [] e.e = "stats" -> StatsStep(e)
-             [] OTHER -> bad' = Flag("Monitor.UnknownEvent") /\ UNCHANGED <<single, sess, used, attempts, distinct>>
+             [] OTHER -> bad' = Flag("Monitor.UnknownEvent") /\ UNCHANGED <<single, sess, used, attempts, distinct, fails>>
 Spec == Init /\ [][Step]_vars
 Verdict == (l = Len(Tr) + 1) => PrintT(<<"VERDICT", t, bad>>)
 =============================================================================
